@@ -27,8 +27,14 @@ ModelAnswer(e) ==
       [] e.op = "isdir"  -> IF IsDir(fs, e.p1) THEN 1 ELSE 0
       [] OTHER -> -1
 Known(p) == p \in AllPaths
-TInit == /\ Init /\ assign = [i \in Ins |-> {Header.assign[i][j] : j \in 1..Len(Header.assign[i])}] /\ l = 1
-Silent == /\ \E t \in Tasks : CallAt(t).op = "none" /\ TaskStep(t)
+TInit == /\ assign = [i \in Ins |-> {Header.assign[i][j] : j \in 1..Len(Header.assign[i])}] /\ InitRest /\ l = 1
+(* silent steps of different tasks commute; to keep the search linear a task may move silently only when it is the one the
+   next event belongs to, when it is main, when it is finishing (a proc task after its last write), or when the log is consumed *)
+MaySilent(t) == \/ l > NEvents
+                \/ t = MAIN
+                \/ <<Ev(l).task[1], Ev(l).task[2]>> = t
+                \/ (t[1] = "proc" /\ NextAssigned(t[2], pc[t][2]) >= NOut)
+Silent == /\ \E t \in Tasks : CallAt(t).op = "none" /\ MaySilent(t) /\ TaskStep(t)
           /\ UNCHANGED l
 Protocol == /\ l <= NEvents /\ Ev(l).kind = "protocol"
             /\ LET e == Ev(l)
